@@ -8,14 +8,22 @@
 (* read-modify-write (BinAmps_[j] *= Amax), so executing a task twice or    *)
 (* writing another task's row would change the result.                      *)
 (*                                                                          *)
-(* Actions: Dispatch(w) (idle worker takes the next task from the queue),   *)
+(* Inputs are marshalled first: Share copies the frequency vector and the    *)
+(* signal into shared arrays, which NORMALISES their representation to        *)
+(* binary64 whatever the caller passed (float32, integers).  The arithmetic   *)
+(* of a task runs in the representation of the inputs it sees, so the serial  *)
+(* loop must see the same normalised inputs (SerialRep) - otherwise a float32 *)
+(* frequency vector gives float32 filter coefficients serially and binary64   *)
+(* ones in the workers.                                                       *)
+(*                                                                          *)
+(* Actions: Share (parent, before the pool starts), Dispatch(w) (idle worker takes the next task from the queue),   *)
 (* Complete(w) (the worker's shared-array writes; hook H1 brackets exactly  *)
 (* this critical section), Collect (parent reads the arrays after the pool  *)
 (* has exited).                                                             *)
 (***************************************************************************)
 EXTENDS Integers, Sequences, FiniteSets, TLC
 
-CONSTANTS LF, W, RMW, Export
+CONSTANTS LF, W, RMW, Export, InRep       \* InRep: representation of the caller's frequency vector: "f8" | "f4" | "i8"
 
 Tasks == 0..(LF - 1)
 Workers == 1..W
@@ -25,39 +33,45 @@ VARIABLES next,      \* next task index to hand out
           running,   \* [Workers -> Tasks \cup {Idle}]
           done,      \* completion sequence of <<task, worker>>
           row,       \* [Tasks -> value]  (the shared arrays, one abstract row per task)
-          result     \* what the parent returns ("none" until Collect)
+          result,    \* what the parent returns ("none" until Collect)
+          shared     \* representation of the inputs in shared memory ("none" until Share)
 
-vars == <<next, running, done, row, result>>
+vars == <<next, running, done, row, result, shared>>
 
 Init0(j) == IF RMW THEN <<"init", j>> ELSE <<"zero">>    \* BinAmps_ starts as arange(nbins)/nbins
-RowVal(j, old) == IF RMW THEN <<"mul", old, <<"amp", j>>>> ELSE <<"val", j>>
-Serial == [j \in Tasks |-> RowVal(j, Init0(j))]           \* what the serial loop produces
+Norm(rep) == "f8"                                         \* copyToSharedArray: every input becomes binary64
+SerialRep == Norm(InRep)                                  \* the serial loop works on the normalised inputs too
+RowVal(j, old, rep) == IF RMW THEN <<"mul", old, <<"amp", j, rep>>>> ELSE <<"val", j, rep>>
+Serial == [j \in Tasks |-> RowVal(j, Init0(j), SerialRep)]  \* what the serial loop produces
 
 Init == /\ next = 0
         /\ running = [w \in Workers |-> Idle]
         /\ done = <<>>
         /\ row = [j \in Tasks |-> Init0(j)]
         /\ result = <<"none">>
+        /\ shared = "none"
 
-Dispatch(w) == /\ running[w] = Idle /\ next < LF
+Share == /\ shared = "none" /\ shared' = Norm(InRep) /\ UNCHANGED <<next, running, done, row, result>>
+
+Dispatch(w) == /\ shared # "none" /\ running[w] = Idle /\ next < LF
                /\ running' = [running EXCEPT ![w] = next]
                /\ next' = next + 1
-               /\ UNCHANGED <<done, row, result>>
+               /\ UNCHANGED <<done, row, result, shared>>
 
 Complete(w) == /\ running[w] # Idle
                /\ LET j == running[w] IN
-                    /\ row' = [row EXCEPT ![j] = RowVal(j, row[j])]
+                    /\ row' = [row EXCEPT ![j] = RowVal(j, row[j], shared)]
                     /\ done' = Append(done, <<j, w>>)
                /\ running' = [running EXCEPT ![w] = Idle]
-               /\ UNCHANGED <<next, result>>
+               /\ UNCHANGED <<next, result, shared>>
 
 AllDone == next = LF /\ \A w \in Workers : running[w] = Idle
 
 Collect == /\ AllDone /\ result = <<"none">>
            /\ result' = row
-           /\ UNCHANGED <<next, running, done, row>>
+           /\ UNCHANGED <<next, running, done, row, shared>>
 
-Next == (\E w \in Workers : Dispatch(w) \/ Complete(w)) \/ Collect
+Next == Share \/ (\E w \in Workers : Dispatch(w) \/ Complete(w)) \/ Collect
 
 Spec == Init /\ [][Next]_vars /\ WF_vars(Next)
 
@@ -82,5 +96,8 @@ InFlight == Cardinality({w \in Workers : running[w] # Idle}) <= W /\ next - Len(
 Terminates == <>(result # <<"none">>)
 
 \* behaviour export: every reachable completion order (with worker ids)
-ExportOK == (Export /\ result # <<"none">>) => PrintT(<<"ORDER", done>>)
+\* the workers never run before the inputs are in shared memory, and both paths compute in the same representation
+SharedBeforeWork == (next > 0) => shared = Norm(InRep)
+SameRepresentation == \A i \in 1..Len(done) : shared = SerialRep
+ExportOK == (Export /\ result # <<"none">>) => PrintT(<<"ORDER", done, InRep>>)
 =============================================================================
